@@ -8,7 +8,8 @@
     compiled schedule interpreter harness/C18/codriver.nelua on the same schedules; the
     property oracle is an independent reference state machine written from the documentation
     (harness/C18/oracle.py, strict reading: an invalid transition changes nothing).
-Open finding (designated witnesses, exact keys): a refused resume WITH arguments keeps them pushed."""
+No open finding: the destroy order (1075c3a) and the refused resume with arguments (6a782fc) are repaired; their
+witness schedules are replayed as regression witnesses on every run."""
 import concurrent.futures
 import importlib.util
 import os
@@ -20,7 +21,7 @@ ALLOWED_AXIOMS = []
 TRUSTED_BASE = [
     "coqc 8.16.1 kernel (vm_compute used for refutation witnesses, non-vacuity examples and facts about scraped constants; no native_compute)",
     "no axioms: every theorem of coq/C18/Properties.v is 'Closed under the global context'",
-    "translator checks/C18.py:gen (regex scrape of lib/detail/minicoro.nelua and lib/coroutine.nelua: both enums, storage size, MCO_ZERO_MEMORY, description strings, status strings, panic messages, unregister/destroy order)",
+    "translator checks/C18.py:gen (regex scrape of lib/detail/minicoro.nelua and lib/coroutine.nelua: both enums, storage size, MCO_ZERO_MEMORY, description strings, status strings, panic messages, unregister/destroy order, argument rollback of a refused resume)",
     "extraction: Require Extraction + ExtrOcamlBasic only; Z/positive/nat/string stay Coq inductives; no Extract Constant of our own",
     "coq/C18/glue.ml (local copy of the needed part of ocaml/zutil.ml: the extracted model contains Coq's string type, which shadows OCaml's inside zutil.ml) + coq/C18/codriver.ml (script text -> model ops, model lines -> text; encodes typed values as little-endian bytes)",
     "harness/C18/codriver.nelua (schedule interpreter on the real coroutine library; nothing of coroutine.nelua / minicoro is re-implemented), harness/C18/oracle.py (reference semantics), gcc, the real Nelua compiler built from /repo/src",
@@ -35,25 +36,24 @@ THEOREM_CLASSES = {
     "C18_storage_lifo": "main", "C18_typed_roundtrip": "main", "C18_push_rollback": "main",
     "C18_resume_delivers_values": "main", "C18_yield_delivers_values": "main",
     "C18_body_receives_arguments": "main", "C18_body_return_delivers_values": "main",
-    "C18_invalid_transitions": "main", "C18_error_unchanged_refuted": "refutation",
-    "C18_error_unchanged_partial": "main", "C18_registered_while_alive": "tripwire",
-    "C18_destroy_behaviour": "main", "C18_resume_args_effect": "main", "C18_gen_facts": "tripwire",
+    "C18_invalid_transitions": "main", "C18_error_unchanged": "main", "C18_registered_while_alive": "tripwire",
+    "C18_destroy_behaviour": "main", "C18_refused_resume_unchanged": "corollary", "C18_gen_facts": "tripwire",
 }
 UNPROVED = [
     "the context switch itself (_mco_switch, assembly) and 'local variables of every suspended frame are intact when it continues': no model; observed only through per-frame canaries (level frames, typed body arguments, the workers of `sub`) on every run",
     "model = code: established by differential correspondence on generated schedules only (NSLOTS = 24, resume chains <= 24, frame depth <= 8 on the tested side; the theorems have no such bounds)",
     "no Coq reference semantics with a refinement theorem: 'the state the documentation prescribes' is proved as invariants + the per-operation transition theorems (C18_resume/yield/return_transition, C18_quiet_commands, C18_destroy_behaviour); the call-stack reference semantics exists in Python only (oracle.py) and is compared by testing",
-    "OPEN FINDING (known_findings/C18.json, two designated witnesses): coroutine.resume(co, args...) of a coroutine that is not suspended reports failure but keeps the arguments pushed (C18_resume_args_effect states the exact effect, C18_error_unchanged_refuted uses it); outside the designated witnesses a divergence from the strict reference is accepted only when the schedule contains that trigger AND the model of the unchanged code and the code-order reference both predict the implementation's output exactly (counted as open_finding_predicted_by_model); repair proposed in harness/C18/proposed_repairs/01-resume-args-rollback.diff",
+    "no open finding: the two repaired defects (destroy order 1075c3a, refused resume with arguments 6a782fc) are modelled as repaired, under scraped flags with fact lemmas (C18_gen_facts), so a revert breaks proofs and their witness schedules (replayed on every run in every build) fail the strict reference; the single exclusion left in C18_error_unchanged is the documented multi-value coroutine.pop (next item)",
     "documented limit, not a finding: a coroutine.pop of several values that fails midway keeps what it popped ('the values may not be set', 'the user is responsible to always use the right types and push/pop order and count'): C18_pop_effect states it exactly; corpus/C18/multipop_partial.txt replays it",
     "GC lifecycle: only the registration flag is modelled (C18_registered_while_alive is a trip-wire for the repaired destroy order, it proves nothing about gc.nelua); `forget k` drops the only handle of a suspended/dead coroutine and collects (finalizer path coroutine_gc -> destroy -> gc:unregister): the model just removes the object; whether/when the collector finalizes it (conservative retention) is not modelled, the harness accepts 'gc.items shrinks by at most the number of forgotten coroutines, or stays' and no abort; `gc` and `sub` are identities on the model state (sub_lines is the expected transcript, not a model)",
     "never run against the implementation: MCO_INVALID_POINTER paths (NULL src of mco_push, NULL dest of mco_peek), the unregister-first branch of co_destroy and CPanic PANIC_UNREGISTER (pre-repair code, kept under the scraped flag), the out-of-fuel line of unwind (proved unreachable)",
     "not modelled: MCO_STACK_OVERFLOW, allocation failure (mmap), raw minicoro.yield/resume on a coroutine other than the running one, coroutine.spawn, coroutine.isyieldable of another handle, coroutine.wrap (TODO in the source)",
     "the enum VALUES of mco_state/mco_result are scraped but enter only NoDup facts (the model is by name; gen cross-checks the C enum against the Nelua binding)",
-    "the oracle also drives the generators (schedules explore what the reference believes is reachable); the shrinker avoids the open finding's trigger",
+    "the oracle also drives the generators (schedules explore what the reference believes is reachable); the shrinker re-checks every candidate against the same strict reference",
     "the ASan build skips schedules that destroy/close/forget a coroutine suspended inside its body (stale shadow poison after munmap gives false positives); --release and ASan only in the thorough tier",
 ]
 MANIFEST_ENTRY = {
-    "text": "proof, partial: theorems over all command histories of an executable model of coroutine.nelua + minicoro: exactly one Running coroutine = current, Normal = the acyclic prev chain down to main, Suspended/Dead have no resumer; the documented transition of every operation (resume, yield, body return, destroy, quiet commands, failed calls) and Dead absorbing; LIFO byte storage within capacity with zeroed tail, storage frame (a command changes only the storage it addresses), typed push/pop round trip, all-or-nothing push, exact effect of a failing multi-value pop; values and typed body arguments/returns cross resume/yield unmodified; invalid transitions return the documented error and change nothing except the open finding (refused resume WITH arguments keeps them pushed: refuted + exact effect + partial); resting on differential testing only: that the model is the code (schedule-by-schedule correspondence of the extracted model and of an independent reference against the real library, gc/nogc/release/ASan builds), the context switch and intactness of suspended frames (canaries), the GC lifecycle of coroutines (finalizer path, stack scanning after failed transitions)",
+    "text": "proof, partial: theorems over all command histories of an executable model of coroutine.nelua + minicoro: exactly one Running coroutine = current, Normal = the acyclic prev chain down to main, Suspended/Dead have no resumer; the documented transition of every operation (resume, yield, body return, destroy, quiet commands, failed calls) and Dead absorbing; LIFO byte storage within capacity with zeroed tail, storage frame (a command changes only the storage it addresses), typed push/pop round trip, all-or-nothing push, exact effect of a failing multi-value pop; values and typed body arguments/returns cross resume/yield unmodified; every failed call of the library returns the documented error and leaves the whole state unchanged, with the single documented exclusion of a multi-value coroutine.pop failing midway (C18_error_unchanged, C18_pop_effect); resting on differential testing only: that the model is the code (schedule-by-schedule correspondence of the extracted model and of an independent reference against the real library, gc/nogc/release/ASan builds), the context switch and intactness of suspended frames (canaries), the GC lifecycle of coroutines (finalizer path, stack scanning after failed transitions)",
     "note": "trusted: Coq kernel, regex scrapes into Gen.v, ExtrOcamlBasic extraction, coq/C18/codriver.ml + glue.ml, harness/C18/codriver.nelua, harness/C18/oracle.py, gcc; assumes zero-initialised coroutine memory, little-endian value layout, no stack overflow; lib/allocators/gc.nelua itself is property C10's model (here only the registration flag)",
     "technique": "machine-checked proof in Coq over an executable model + regenerated parameters + extracted-model/implementation correspondence on generated schedules with an independent reference oracle",
 }
@@ -190,6 +190,20 @@ def gen(ctx):
         # the repaired shape we know: unregister only after a successful destroy
         if not re.search(r"minicoro\.destroy\(co\).*?MCO_SUCCESS then return false.*?gc:unregister\(co\)", db, re.S):
             raise RuntimeError("coroutine.destroy has a shape the model does not know")
+    # resume: does a refused resume take its arguments back (repair 6a782fc)?
+    m = re.search(r"function coroutine\.resume\(co: coroutine, \.\.\.: varargs\): \(boolean, string\) <noinline>(.*?)\nend\n", co, re.S)
+    if not m:
+        raise RuntimeError("cannot find coroutine.resume")
+    rb = m.group(1)
+    if "coroutine.push(co, ...)" not in rb or "minicoro.resume(co)" not in rb or rb.find("coroutine.push(co, ...)") > rb.find("minicoro.resume(co)"):
+        raise RuntimeError("coroutine.resume has a shape the model does not know (push before minicoro.resume expected)")
+    tail = rb[rb.find("minicoro.resume(co)"):]
+    mfail = re.search(r"if res ~= minicoro\.Result\.MCO_SUCCESS then(.*?)return false", tail, re.S)
+    if not mfail:
+        raise RuntimeError("cannot find the failure branch of coroutine.resume")
+    out["resume_rolls_back_args"] = bool(re.search(r"minicoro\.pop\(co, nilptr, #\[argbytes\]#\)", mfail.group(1)))
+    if out["resume_rolls_back_args"] and not re.search(r"argbytes = argbytes \+ select\(i, \.\.\.\)\.attr\.type\.size", mfail.group(1)):
+        raise RuntimeError("coroutine.resume pops something else than the sizes of its arguments on failure")
     mu = re.search(r"assert\(oldsize ~= 0, '([^']*)'\)", gcsrc)
     if not mu:
         raise RuntimeError("cannot find the assertion of GC:unregister")
@@ -220,6 +234,7 @@ def gen(ctx):
     txt += "Definition PANIC_PUSH_RET : string := %s.\n" % _coq_str(out["panic_push_ret"])
     txt += "Definition PANIC_UNREGISTER : string := %s.\n" % _coq_str(out["panic_unregister"])
     txt += "Definition DESTROY_UNREGISTERS_FIRST : bool := %s.\n" % ("true" if out["destroy_unregisters_first"] else "false")
+    txt += "Definition RESUME_ROLLS_BACK_ARGS : bool := %s.\n" % ("true" if out["resume_rolls_back_args"] else "false")
     vlib.write_if_changed(os.path.join(vlib.coq_dir(ID), "Gen.v"), txt)
     ORACLE.CAP = out["MCO_DEFAULT_STORAGE_SIZE"]     # policy constant: the reference semantics follows the source
     return out
@@ -237,7 +252,7 @@ ORACLE = _load_oracle()
 NSLOTS = 24
 I64MIN, I64MAX = -(1 << 63), (1 << 63) - 1
 
-# Regression witnesses of the repaired defect (commit 1075c3a: coroutine.destroy used to call gc:unregister
+# Regression witnesses of the repaired defects (commit 1075c3a: coroutine.destroy used to call gc:unregister
 # before minicoro.destroy, so a refused destroy of a running/normal coroutine unregistered it from the GC and
 # the later legal destroy aborted with 'invalid unregister pointer').  Replayed on every GC build; they must
 # agree with the documented behaviour (reg stays true, the later destroy succeeds): a regression is a VIOLATION.
@@ -247,37 +262,10 @@ WITNESSES = [
                         "ret 0 0", "status 0", "destroy 0", "status 0", "end"]),
     ("close-normal", ["create 0 0", "create 1 0", "resume 0", "resume 1", "close 0", "status 0", "yield", "yield", "status 0",
                       "destroy 0", "status 0", "end"]),
+    # repaired in 6a782fc: a refused resume WITH arguments used to keep them pushed (stored 8 resp. 13 instead of 0)
+    ("resume-args-self", ["create 0 0", "resume 0", "resumev 0 0 7 0 0", "status 0", "end"]),
+    ("resume-args-dead", ["create 0 0", "resume 0", "ret 0 0", "resumev 0 1 5 6 7", "status 0", "end"]),
 ]
-
-
-# OPEN finding: coroutine.resume(co, args...) pushes the arguments before minicoro.resume checks the state and does not
-# take them back when the resume is refused: an invalid transition (resume of a running / dead coroutine) that
-# reports failure but changes the storage of that coroutine.  Designated witnesses (exact keys in known_findings):
-KEY_RESUME_ARGS_SELF = ("schedule:create 0 0;resume 0;resumev 0 0 7 0 0;status 0 -> the refused resume of the running coroutine "
-                        "(by itself) with one int64 argument leaves 8 bytes in its storage (status: stored=8, documented: unchanged, 0) "
-                        "[coroutine.resume: coroutine.push before minicoro.resume, no rollback]")
-KEY_RESUME_ARGS_DEAD = ("schedule:create 0 0;resume 0;ret 0 0;resumev 0 1 5 6 7;status 0 -> the refused resume of a dead coroutine from "
-                        "the main program with (int64,int32,byte) arguments leaves 13 bytes in its storage (documented: unchanged, 0) "
-                        "[coroutine.resume: coroutine.push before minicoro.resume, no rollback]")
-OPEN_WITNESSES = [
-    ("resume-args-self", ["create 0 0", "resume 0", "resumev 0 0 7 0 0", "status 0", "end"], KEY_RESUME_ARGS_SELF),
-    ("resume-args-dead", ["create 0 0", "resume 0", "ret 0 0", "resumev 0 1 5 6 7", "status 0", "end"], KEY_RESUME_ARGS_DEAD),
-]
-
-
-def has_resume_args_trigger(script, gc):
-    """does the schedule resume, WITH arguments that fit, a coroutine that exists and is not suspended?"""
-    ref = ORACLE.Ref(gc, NSLOTS, strict=False)
-    for i, cmd in enumerate(script):
-        w = cmd.split()
-        if w[0] == "resumev":
-            co = ref.slots.get(int(w[1]))
-            if co is not None and co.status != "suspended":
-                return True
-        ref.step(i, w)
-        if ref.done:
-            break
-    return False
 
 
 # ---------------------------------------------------------------------------- generators
@@ -319,7 +307,7 @@ def gen_schedule(rng, stream, gc, ncos, nops, maxchain, maxdepth, psub=0.6):
               later one overflows the storage, with values pending.
     Destroy / close of running and normal coroutines (by themselves or by a coroutine they resumed) is part
     of the invalid stream in every build."""
-    ref = ORACLE.Ref(gc, NSLOTS, strict=False)     # the generator follows the code as it is
+    ref = ORACLE.Ref(gc, NSLOTS)
     script = []
     stats = {}
     invalid = stream == "invalid"
@@ -694,8 +682,6 @@ def shrink(binary, script, gc, budget=160):
     """delta debugging on the command list: keeps a schedule on which the implementation still differs
     from the documented behaviour."""
     def fails(sc):
-        if has_resume_args_trigger(sc, gc):
-            return False          # stay clear of the open finding while minimising something else
         try:
             exp = norm_expected(ORACLE.run(sc, gc, NSLOTS))
         except Exception:
@@ -769,7 +755,7 @@ def correspond(ctx):
         sets[gcmode] = items
     evaluations = 0
     nontrivial = set()
-    n_oracle = n_mismatch = n_predicted = 0
+    n_oracle = n_mismatch = 0
     n_runs = 0
     samples = []
     err_hist = {}
@@ -813,12 +799,6 @@ def correspond(ctx):
             if len(samples) < 4 and name.startswith(("tree", "invalid", "rollback")) and tag == "gc":
                 samples.append("%s/%s: %s" % (tag, name, short(sc)))
             d = first_diff(ilines, exp)
-            if d is not None and has_resume_args_trigger(sc, gcmode) and first_diff(ilines, mlines) is None \
-                    and first_diff(ilines, norm_expected(ORACLE.run(sc, gcmode, NSLOTS, strict=False))) is None:
-                # the open finding (a refused resume keeps its arguments pushed) met outside its designated witnesses:
-                # the model of the unchanged code and the code-order reference both predict exactly this output
-                n_predicted += 1
-                d = None
             if d is not None:
                 n_oracle += 1
                 if n_oracle <= 4:
@@ -854,12 +834,12 @@ def correspond(ctx):
                                   (tag, name, got[:200], want[:200]),
                                   detail={"schedule": sc, "line": i, "no_longer_checks": "correspondence stream C18/" + name.split("-")[0]},
                                   failing_input=False)
-        # ---- regression witnesses of the repaired destroy defect (GC builds): must agree with the oracle
-        if gcmode:
+        # ---- regression witnesses of the repaired defects (every build): must agree with the oracle
+        if True:
             for wname, wsc in WITNESSES:
                 rc, ilines = run_impl(binary, wsc)
-                exp = norm_expected(ORACLE.run(wsc, True, NSLOTS))
-                mlines = norm_expected(run_model(model, [wsc], True)[0])
+                exp = norm_expected(ORACLE.run(wsc, gcmode, NSLOTS))
+                mlines = norm_expected(run_model(model, [wsc], gcmode)[0])
                 evaluations += sum(1 for l in ilines if l.startswith("> "))
                 n_runs += 1
                 d = first_diff(ilines, exp)
@@ -878,28 +858,6 @@ def correspond(ctx):
                     ctx.violation("model-mismatch:witness", "correspondence",
                                   "%s build, witness %s: implementation '%s', model '%s'" % (tag, wname, dm[1], dm[2]),
                                   detail={"schedule": wsc}, failing_input=False)
-        # ---- OPEN finding: designated witnesses, judged against the strict reference (state unchanged on error)
-        for wname, wsc, key in OPEN_WITNESSES:
-            rc, ilines = run_impl(binary, wsc)
-            exp = norm_expected(ORACLE.run(wsc, gcmode, NSLOTS, strict=True))
-            mlines = norm_expected(run_model(model, [wsc], gcmode)[0])
-            evaluations += sum(1 for l in ilines if l.startswith("> "))
-            n_runs += 1
-            d = first_diff(ilines, exp)
-            if d is not None:
-                i, got, want = d
-                ctx.violation(key, "oracle",
-                              "%s build, witness %s (%s): implementation prints '%s', an invalid transition that changes nothing prints '%s'" %
-                              (tag, wname, "; ".join(wsc), got[:200], want[:200]),
-                              detail={"schedule": wsc, "implementation": ilines[max(0, i - 3):i + 2], "oracle": exp[max(0, i - 3):i + 2],
-                                      "model_agrees_with_implementation": first_diff(ilines, mlines) is None,
-                                      "proposed_repair": "harness/C18/proposed_repairs/01-resume-args-rollback.diff",
-                                      "replay": "printf '%s\\n' | ./codriver" % "\\n".join(wsc)})
-            dm = first_diff(ilines, mlines)
-            if dm is not None:
-                ctx.violation("model-mismatch:open-witness", "correspondence",
-                              "%s build, witness %s: implementation '%s', model of the unchanged code '%s'" % (tag, wname, dm[1], dm[2]),
-                              detail={"schedule": wsc}, failing_input=False)
     return {
         "evaluations": evaluations,
         "distinct_nontrivial": len(nontrivial),
@@ -907,7 +865,6 @@ def correspond(ctx):
         "samples": samples,
         "distribution": {"schedules": {("gc" if g else "nogc"): len(v) for g, v in sets.items()}, "builds": [b[0] for b in builds],
                          **dist, "error_results": err_hist},
-        "open_finding_predicted_by_model": n_predicted,
         "forgotten_coroutines_collected_at_once": FORGET_STATS.get("collected", 0),
         "oracle_failures": n_oracle,
         "model_mismatches": n_mismatch,
